@@ -1,5 +1,6 @@
 """C07 — homology of any chain complex over a Euclidean domain is computed correctly."""
 import json
+from . import ext2
 
 def run(ctx):
     # the oracle: elimination-based invariant factors / modular ranks agree with gcds of minors; universal coefficients on small pairs
@@ -24,6 +25,9 @@ def run(ctx):
                         "divisibility of a boundary coordinate by its torsion order is certified by a cofactor computed with the library's division and re-multiplied by TLC"]
     lines = open(trace).read().splitlines()
     ctx.add_samples([json.loads(l) for l in lines[3:4]])
+    # extensions: the containers homology summands and graded complexes are built on (IndexList, Grid / GridDeg) as state machines
+    ext2.indexlist_part(ctx)
+    ext2.grid_part(ctx)
 
 def replay(ctx, path):
     return ctx.replay_trace(path)
